@@ -139,7 +139,9 @@ RandomAccessIterator3 parallel_multiway_merge_base(
 
         multiway_merge_base<Stable, false>(
             chunks[iam].begin(), chunks[iam].end(), target + target_position,
-            std::min(local_size, static_cast<DiffType>(size) - target_position),
+            std::max<DiffType>(
+                0, std::min(local_size,
+                            static_cast<DiffType>(size) - target_position)),
             comp, mwma);
     }
 #else
@@ -159,8 +161,9 @@ RandomAccessIterator3 parallel_multiway_merge_base(
             multiway_merge_base<Stable, false>(
                 chunks[iam].begin(), chunks[iam].end(),
                 target + target_position,
-                std::min(local_size,
-                         static_cast<DiffType>(size) - target_position),
+                std::max<DiffType>(
+                    0, std::min(local_size, static_cast<DiffType>(size) -
+                                                target_position)),
                 comp, mwma);
         });
     }
@@ -174,7 +177,20 @@ RandomAccessIterator3 parallel_multiway_merge_base(
     for (RandomAccessIteratorIterator ii = seqs_begin; ii != seqs_end; ++ii)
     {
         if (ii->first != ii->second)
-            ii->first = chunks[num_threads - 1][count_seqs++].second;
+        {
+            // the merges advanced the chunk begins past the elements they
+            // took: the first chunk not taken completely marks the position
+            ii->first = chunks[num_threads - 1][count_seqs].second;
+            for (size_t t = 0; t < num_threads; ++t)
+            {
+                if (chunks[t][count_seqs].first != chunks[t][count_seqs].second)
+                {
+                    ii->first = chunks[t][count_seqs].first;
+                    break;
+                }
+            }
+            ++count_seqs;
+        }
     }
 
     return target + size;
